@@ -31,7 +31,7 @@ def evaluate(case, obs):
     if obs.deadlock:
         out.fail("no_deadlock", "producer", {"deadlock": obs.deadlock, "unresolved": obs.unresolved_after_bound})
     if obs.tasks_hung:
-        out.fail("no_deadlock", "tasks_hung_after_quiet", {"notes": obs.notes})
+        out.label("application_call_blocked_after_quiet")   # C19's subject
     wrapped = bool(case.get("start_seq"))
     params = {"wrapped": wrapped}
     accepted = {}
